@@ -1057,4 +1057,22 @@ theorem parse_run_balanced (buf : List Nat) (ops : List Op) (ns : List Node) (ds
   obtain ⟨hw, he⟩ := toDerL_enc ns hl ht ds hd
   exact ⟨w, _, hr, hs, by rw [← he]; exact parseAll_encL ds hw⟩
 
+mutual
+/-- a tree the writer writes into less than 64 KiB has only lengths the writer can encode -/
+theorem lenOk_of_need (n : Node) (h : n.need < 65536) : n.lenOk := by
+  match n, h with
+  | .prim t c, h => simp [Node.need, Node.enc] at h; simp only [Node.lenOk]; omega
+  | .raw b, _ => trivial
+  | .cons t cs, h =>
+    simp only [Node.need, reserve_eq] at h
+    have := needL_ge cs
+    exact ⟨by omega, lenOkL_of_needL cs (by omega)⟩
+theorem lenOkL_of_needL (cs : List Node) (h : Node.needL cs < 65536) : Node.lenOkL cs := by
+  match cs, h with
+  | [], _ => trivial
+  | n :: r, h =>
+    simp only [Node.needL] at h
+    exact ⟨lenOk_of_need n (by omega), lenOkL_of_needL r (by omega)⟩
+end
+
 end Codec.Der
